@@ -49,13 +49,16 @@ type c15Chal struct {
 }
 
 type c15Op struct {
-	Kind   string `json:"kind"`            // present | clean | tamper
+	Kind   string `json:"kind"`            // present | clean | tamper | ask
 	Place  string `json:"place,omitempty"` // local | remote | mem
 	J      int    `json:"j"`               // index of the issuer in Config.Issuers
 	TestCA bool   `json:"testca,omitempty"`
 	C      int    `json:"c"`              // index into Chals
 	Name   string `json:"name,omitempty"` // tamper: identifier whose token file is hit
 	V      string `json:"v,omitempty"`    // tamper: delete | corrupt | empty
+	// ask: a request served by this process in the middle of the history (its answer is not
+	// recorded; what matters is that answering must not change what later requests get)
+	Q *c15Query `json:"q,omitempty"`
 }
 
 type c15Query struct {
@@ -211,6 +214,12 @@ func (e *c15Env) apply(in *c15In, op c15Op) error {
 			return s.Present(ctx, ch.acme())
 		}
 		return s.CleanUp(ctx, ch.acme())
+	case "ask":
+		if op.Q == nil {
+			return fmt.Errorf("ask without a request")
+		}
+		e.query(in, *op.Q) // unparsable targets are simply not delivered
+		return nil
 	case "tamper":
 		key := certmagic.VerifChallengeTokensKey(e.issB[op.J].IssuerKey(), op.Name)
 		switch op.V {
@@ -484,6 +493,8 @@ func (r *c15Runner) runScenario(chals []c15Chal, ops []c15Op, queries []c15Query
 				c15EncChal(enc, chals[op.C])
 			case "tamper":
 				enc.Int(2).Int(op.J).Str(op.Name).Int(map[string]int{"delete": 0, "corrupt": 1, "empty": 2}[op.V])
+			case "ask":
+				enc.Int(3)
 			}
 		}
 		enc.Len(len(memObs))
@@ -573,7 +584,9 @@ func c15HostVariants(id string) []c15Variant {
 		{"empty", ""}, {"lead-space", " " + id}, {"trail-space", id + " "}, {"other", "other.example"}, {"two-ports", id + ":80:80"},
 		{"bracketed", "[" + id + "]"}, {"bracketed-port", "[" + id + "]:80"}, {"raw-port", id + ":80"}, {"open-bracket", "[" + id},
 		{"close-bracket", id + "]"}, {"bracket-junk", "[" + id + "]x"}, {"bracket-empty-port", "[" + id + "]:"}, {"double-bracket", "[[" + id + "]]"},
-		{"zone", "[" + id + "%25eth0]"}, {"bracket-swapcase", "[" + c15SwapCase(id) + "]"}}
+		{"zone", "[" + id + "%25eth0]"}, {"bracket-swapcase", "[" + c15SwapCase(id) + "]"},
+		// spellings that KeyBuilder.Safe maps to the identifier's storage key
+		{"dollar-mid", id[:1] + "$" + id[1:]}, {"bang", id + "!"}, {"parens", "(" + id + ")"}, {"star-mid", id[:1] + "*" + id[1:]}}
 	if strings.ContainsAny(id, "kK") {
 		v = append(v, c15Variant{"kelvin", strings.NewReplacer("k", "K", "K", "K").Replace(id)})
 	}
@@ -596,7 +609,8 @@ var c15Methods = []string{"GET", "HEAD", "POST", "get", "GETX", "PUT", "OPTIONS"
 
 func c15SNIVariants(key, ident string) []c15Variant {
 	v := []c15Variant{{"exact", key}, {"swapcase", c15SwapCase(key)}, {"hash", key + "#"}, {"trailing-dot", key + "."}, {"prefixed", "x" + key}, {"empty", ""},
-		{"other", "other.example"}, {"lead-space", " " + key}, {"plus", key + "+"}, {"colon", key + ":"}, {"slash", key + "/"}, {"ident", ident}}
+		{"other", "other.example"}, {"lead-space", " " + key}, {"plus", key + "+"}, {"colon", key + ":"}, {"slash", key + "/"}, {"ident", ident},
+		{"dollar-mid", key[:1] + "$" + key[1:]}, {"bang", key + "!"}, {"parens", "(" + key + ")"}}
 	if strings.ContainsAny(key, "kK") {
 		v = append(v, c15Variant{"kelvin", strings.NewReplacer("k", "K", "K", "K").Replace(key)})
 	}
@@ -685,6 +699,18 @@ func c15QueriesFor(r *rand.Rand, chals []c15Chal, ci int, state string, thorough
 		add(c15Query{Kind: "hello", SNI: s.val, Protos: p.p}, map[string]any{"sni": s.name, "protos": p.name})
 	}
 	return qs, ds
+}
+
+// c15Asks are the two validation requests of challenge c as intermediate steps of a history.
+func c15Asks(c c15Chal) []c15Op {
+	host := c.Ident
+	if c.IDType == "ip" && strings.Contains(c.Ident, ":") {
+		host = "[" + c.Ident + "]"
+	}
+	return []c15Op{
+		{Kind: "ask", Q: &c15Query{Kind: "hello", SNI: certmagic.VerifChallengeKey(c.acme()), Protos: []string{"acme-tls/1"}}},
+		{Kind: "ask", Q: &c15Query{Kind: "http", Method: "GET", Target: c15Base + "/" + c.Token, Host: host}},
+	}
 }
 
 // c15Uniq makes an identifier unique to scenario n, keeping its kind and letter case.
@@ -788,6 +814,7 @@ func runC15(tier string, seed int64, outdir string, replay string) error {
 	}
 	P := func(place string, j, c int) c15Op { return c15Op{Kind: "present", Place: place, J: j, C: c} }
 	C := func(place string, j, c int) c15Op { return c15Op{Kind: "clean", Place: place, J: j, C: c} }
+	A := func(c int) c15Op { return c15Op{Kind: "ask", C: c} } // this process answers c's validation requests
 	// ---- corpus: witnesses of the fixed findings and the four states of the property text
 	for _, id := range idents {
 		for _, typ := range []string{"http-01", "tls-alpn-01"} {
@@ -802,6 +829,17 @@ func runC15(tier string, seed int64, outdir string, replay string) error {
 				scen{"remote-issuer2", []c15Chal{c0}, []c15Op{P("remote", 1, 0)}, []string{"remote"}, ""},
 				scen{"remote-testca", []c15Chal{c0}, []c15Op{{Kind: "present", Place: "remote", J: 0, TestCA: true, C: 0}}, []string{"remote"}, "testca-remote"},
 				scen{"local-testca", []c15Chal{c0}, []c15Op{{Kind: "present", Place: "local", J: 0, TestCA: true, C: 0}}, []string{"local"}, ""},
+			)
+			// answering must not change what later requests get: this process answers the validation
+			// of a challenge, then the challenge is cleaned up / replaced by a new one for the same name
+			c1 := c15NewChal(r, typ, id)
+			co := c15NewChal(r, map[string]string{"http-01": "tls-alpn-01", "tls-alpn-01": "http-01"}[typ], id)
+			scens = append(scens,
+				scen{"remote-asked", []c15Chal{c0}, []c15Op{P("remote", 0, 0), A(0)}, []string{"remote"}, ""},
+				scen{"remote-asked-cleaned", []c15Chal{c0}, []c15Op{P("remote", 0, 0), A(0), C("remote", 0, 0)}, []string{"cleaned"}, ""},
+				scen{"remote-asked-renewed", []c15Chal{c0, c1}, []c15Op{P("remote", 0, 0), A(0), C("remote", 0, 0), P("remote", 0, 1)}, []string{"cleaned", "remote"}, ""},
+				scen{"remote-asked-renewed-other-type", []c15Chal{c0, co}, []c15Op{P("remote", 1, 0), A(0), C("remote", 1, 0), P("remote", 0, 1), A(1)}, []string{"cleaned", "remote"}, ""},
+				scen{"local-asked-cleaned", []c15Chal{c0}, []c15Op{P("local", 0, 0), A(0), C("local", 0, 0)}, []string{"cleaned"}, ""},
 			)
 		}
 	}
@@ -854,6 +892,8 @@ func runC15(tier string, seed int64, outdir string, replay string) error {
 				}
 				op := c15Op{Kind: "present", Place: place, J: r.Intn(2), C: k, TestCA: r.Intn(4) == 0 && place != "mem"}
 				ops, placeOf[k], state[k] = append(ops, op), op, place
+			case r.Intn(4) == 0:
+				ops = append(ops, A(k))
 			case r.Intn(8) == 0 && placeOf[k].Place != "mem":
 				ops = append(ops, c15Op{Kind: "tamper", J: placeOf[k].J, Name: chals[k].Ident, V: []string{"delete", "corrupt", "empty"}[r.Intn(3)]})
 				state[k] = "tampered"
@@ -875,11 +915,19 @@ func runC15(tier string, seed int64, outdir string, replay string) error {
 			}
 			s.chals[i].Ident = ren[s.chals[i].Ident]
 		}
-		for i := range s.ops {
-			if s.ops[i].Kind == "tamper" {
-				s.ops[i].Name = ren[s.ops[i].Name]
+		var ops2 []c15Op
+		for _, op := range s.ops {
+			switch {
+			case op.Kind == "tamper":
+				op.Name = ren[op.Name]
+				ops2 = append(ops2, op)
+			case op.Kind == "ask" && op.Q == nil: // symbolic: the validation requests of challenge op.C
+				ops2 = append(ops2, c15Asks(s.chals[op.C])...)
+			default:
+				ops2 = append(ops2, op)
 			}
 		}
+		s.ops = ops2
 		var qs []c15Query
 		var ds []map[string]any
 		for ci := range s.chals {
